@@ -4,7 +4,7 @@
    is outside the property).  The other operand is arbitrary: it may produce forever or never. *)
 From Coq Require Import List Permutation ZArith Arith.
 From PV Require Import Model.Term Model.Subst Model.State Model.Engine Spec.StreamSem
-  Proofs.StreamProofs Proofs.EngineProofs Gen.RelDefs.
+  Proofs.StreamProofs Proofs.EngineProofs Proofs.SemProofs Proofs.PureElab Proofs.FairProofs Gen.RelDefs.
 Import ListNotations.
 
 Theorem C07_merge_left : forall defs n s l a,
@@ -46,9 +46,52 @@ Example C07_two_infinite_branches :
   = [Some (tnum 1); Some (tnum 2); Some (tnum 1); Some (tnum 2)].
 Proof. vm_compute. reflexivity. Qed.
 
+(* ---------------------------------------------------------------- fairness at the level of goals *)
+(* psrc : a source program of the pure relational fragment - interleaving conjunction and disjunction
+   (conde, match, loop/anyo), fresh, closures, relation calls, for-all, project, ==, !=, domains and
+   constraints; no committed choice (conda, condu, onceo) and no dfs block.  pureg : the same for goal
+   objects; goal construction in interleaving mode maps psrc programs to pureg goals, including every
+   body it elaborates later (C07_pure_elab).
+   For every such goal, at any nesting depth, with any relation definitions: an answer that ONE CLAUSE
+   of a disjunction delivers when run on its own is delivered by the WHOLE disjunction after finitely
+   many steps - whatever the other clauses do: produce infinitely many answers, or run forever
+   without producing any - unless an engine step fails with an error outcome first.  More generally
+   every answer that is derivable in the declarative semantics (SemProofs) is delivered:
+   the search is complete on the pure fragment (the converse of the soundness theorem of C06). *)
+Theorem C07_disjunction_fair : forall defs,
+  (forall r d, find_def r defs = Some d -> psrc (d_body d)) ->
+  forall k u m gs c st a rest u',
+  pureg (CConde BFS gs) -> In c gs ->
+  next defs k u (start defs m c st) = NAnswer a rest u' ->
+  exists n, emitsE (startq defs) n (startq defs (CConde BFS gs) st) a.
+Proof. exact disjunction_fair. Qed.
+Theorem C07_conjunction_fair : forall defs,
+  (forall r d, find_def r defs = Some d -> psrc (d_body d)) ->
+  forall k1 u1 m1 k2 u2 m2 g1 g2 st b a r1 r2 v1 v2,
+  pureg (CConj BFS g1 g2) ->
+  next defs k1 u1 (start defs m1 g1 st) = NAnswer b r1 v1 ->
+  next defs k2 u2 (start defs m2 g2 b) = NAnswer a r2 v2 ->
+  exists n, emitsE (startq defs) n (startq defs (CConj BFS g1 g2) st) a.
+Proof. exact conjunction_fair. Qed.
+Theorem C07_search_complete : forall defs,
+  (forall r d, find_def r defs = Some d -> psrc (d_body d)) ->
+  forall g st a, Sem defs g st a -> pureg g -> exists n, emitsE (startq defs) n (startq defs g st) a.
+Proof. exact fair_complete. Qed.
+Theorem C07_pure_elab : forall defs,
+  (forall r d, find_def r defs = Some d -> psrc (d_body d)) ->
+  forall f rho g n, psrc g -> pureg (fst (elab defs f BFS rho g n)).
+Proof. exact elab_pure. Qed.
+(* the examples of the property text are in the fragment *)
+Example C07_never_is_pure : psrc (GCond [[GLoop [[GFalse]]]; [GEq (TVar 0 false) (tnum 1)]]).
+Proof. cbn. tauto. Qed.
+
 Check C07_merge_left : forall defs n s l a, emitsE (startq defs) n s a -> emitsE (startq defs) (4 * n + 2) (mplus s l) a.
 Check C07_complete : forall defs s a, inSb (startq defs) s a -> exists n, emitsE (startq defs) n s a.
 Print Assumptions C07_merge_left.
 Print Assumptions C07_merge_right.
 Print Assumptions C07_bind.
 Print Assumptions C07_complete.
+Print Assumptions C07_disjunction_fair.
+Print Assumptions C07_conjunction_fair.
+Print Assumptions C07_search_complete.
+Print Assumptions C07_pure_elab.
